@@ -159,6 +159,7 @@ def translate_t1():
         rc, so, se = sh([tool, os.path.join(REPO, "iohelp", "iohelp.go"), tmpv, tmpn])
         if rc != 0:
             raise BrokenTie("translator", "T1(iohelp/iohelp.go)", se[-3000:])
+        open(os.path.join(LOGS, "t1.log"), "w").write(se)
         ch = write_if_changed(os.path.join(COQ, "gen", "IohelpGen.v"), open(tmpv).read())
         write_if_changed(os.path.join(COQ, "gen", "iohelp_names.txt"), open(tmpn).read())
         os.remove(tmpv)
